@@ -295,11 +295,11 @@ fn bal_body(c: &BalCase, ch: &Chooser) -> Outcome {
                 }
                 BalOp::Call => {
                     let mut client = EchoClient::new(channel.clone());
-                    let r = tokio::time::timeout(Duration::from_secs(20), client_call(&mut client, Shape::Unary, vec![vec![1]], &vec![], false, &ch, |_| {})).await;
+                    let r = tokio::time::timeout(Duration::from_secs(4), client_call(&mut client, Shape::Unary, vec![vec![1]], &vec![], false, &ch, |_| {})).await;
                     match r {
                         Err(_) => {
                             trace.push("Call=HANG".into());
-                            bad = Some(("balanced-call-hang".into(), format!("after {trace:?} (endpoints registered: {live:?}) the call did not complete within 20 s")));
+                            bad = Some(("balanced-call-hang".into(), format!("after {trace:?} (endpoints registered: {live:?}) the call did not complete within 4 s")));
                             break;
                         }
                         Ok(v) => match &v.error {
@@ -401,7 +401,7 @@ pub fn property(tier: Tier) -> Property {
     let bal = Section::new(
         "balance-discovery",
         Config { hang_secs: 120, ..Default::default() },
-        "cases: every history of depth 4 (thorough 5) over {insert endpoint k, remove endpoint k (k in 0..3; 0 and 1 are reachable servers, 2 is an address nobody listens on), call (only while the model has an endpoint registered)} on a fresh Channel::balance_channel (choices cost nothing; one case per first operation). A balanced channel connects inserted endpoints with tonic's own TCP connector, so this section alone runs over real loopback sockets in real time against two tonic servers on 127.0.0.1 that each execution starts for itself; the only verdict taken from it is completion: RefBalance = the set of registered keys; a call issued while that set is non-empty completes (bound: 20 s of real time, thousands of times a loopback call's latency) — with the backend's answer when only reachable endpoints are registered, with UNAVAILABLE when only the unreachable one is, with either when both kinds are — whether an endpoint was registered before, removed and registered again must not matter. Non-trivial = the history removes an endpoint and makes a call.",
+        "cases: every history of depth 4 (thorough 5) over {insert endpoint k, remove endpoint k (k in 0..3; 0 and 1 are reachable servers, 2 is an address nobody listens on), call (only while the model has an endpoint registered)} on a fresh Channel::balance_channel (choices cost nothing; one case per first operation). A balanced channel connects inserted endpoints with tonic's own TCP connector, so this section alone runs over real loopback sockets in real time against two tonic servers on 127.0.0.1 that each execution starts for itself; the only verdict taken from it is completion: RefBalance = the set of registered keys; a call issued while that set is non-empty completes (bound: 4 s of real time, thousands of times a loopback call's latency) — with the backend's answer when only reachable endpoints are registered, with UNAVAILABLE when only the unreachable one is, with either when both kinds are — whether an endpoint was registered before, removed and registered again must not matter. Non-trivial = the history removes an endpoint and makes a call.",
         bal_menu(&[false; 3]).into_iter().map(|first| BalCase { first, depth: bdepth }).collect(),
         |c: &BalCase| format!("first={:?} depth={}", c.first, c.depth),
         bal_body,
